@@ -10,7 +10,9 @@ from harness import common, diffexec, lowercorr, propkit
 
 VFILES = ["theories/Namespace.v", "theories/Lower.v", "theories/Names.v", "theories/Fresh.v"]
 
-SAFE_IDS = ["_", "__", "k", "v", "self", "it", "itertools", "importlib", "x", "cls", "args", "_0"]
+SAFE_IDS = ["_", "__", "k", "v", "self", "it", "itertools", "importlib", "x", "cls", "args", "_0",
+            # the user's own `super` (the generated code writes zero-argument super() of the builtin out explicitly)
+            "super"]
 # names of builtins the generated code calls: shadowing them breaks the scaffolding (known finding, design level)
 BUILTIN_IDS = ["type", "setattr", "tuple", "list", "hasattr", "slice", "globals", "locals", "__import__", "classmethod", "iter", "next"]
 
@@ -19,6 +21,8 @@ FEATURES = {
     "whiletest": "n_ = 0\nwhile n_ < 2 and V is not None:\n    n_ += 1\nprint(n_)",
     "forbreak": "for q_ in range(3):\n    if q_ == 1:\n        break\n    print(V)",
     "class": "class Z_:\n    m = V\n    def get(self):\n        return V\nprint(Z_.m, Z_().get())",
+    # the name is used only inside a method (the class body itself does not mention it), also under a loop of the method
+    "method": "class Y_:\n    def get(self):\n        return V\n    def loop(self, n=2):\n        out = []\n        for _q in range(n):\n            out.append(V)\n        return out\nprint(Y_().get(), Y_().loop())",
     "import": "import os.path as P_\nprint(V, P_.sep)",
     "fromimport": "from os import path as P2_, sep\nprint(V, sep)",
     "destructuring": "a1_, *b1_ = [V, V]\nprint(a1_, b1_)",
@@ -61,7 +65,7 @@ def program(ident, role, feature):
     if role == "classname":
         return f"class {ident}:\n    a = 7\n" + body.replace("V", f"{ident}.a") + "\n"
     if role == "classattr":
-        if feature in ("globalstore", "closure", "class", "comprehension-walrus", "nested-classes", "nested-returns"):
+        if feature in ("globalstore", "closure", "class", "method", "comprehension-walrus", "nested-classes", "nested-returns"):
             return None
         return "class C_:\n" + _ind(f"{ident} = 7\n" + body.replace("V", ident)) + "\n"
     if role == "alias":
@@ -147,8 +151,18 @@ def run(chk, build, replay=None):
     rng = random.Random(chk.seed * 23 + 9)
     cases = list(matrix(SAFE_IDS))
     if chk.tier == "quick":
-        rng.shuffle(cases)
-        cases = cases[:420]
+        # stratified: every (identifier, feature) pair with one role drawn at random, plus the whole role x feature plane of
+        # the identifiers the generated code itself spells (`super`, `_`)
+        by = {}
+        for key, p in cases:
+            by.setdefault((key[0], key[2]), []).append((key, p))
+        cases = [rng.choice(v) for v in by.values()] + [c for c in cases if c[0][0] in ("super", "_")]
+        seen, uniq = set(), []
+        for c in cases:
+            if c[0] not in seen:
+                seen.add(c[0])
+                uniq.append(c)
+        cases = uniq
     progs = [p for _, p in cases]
     replayed = propkit.load_replay_sources(replay)
     if replayed:
